@@ -7,16 +7,20 @@ namespace TarpcModel.Client
 @[simp] theorem SimT.useAfter_sentLog (t : SimT) (w : String) : (t.useAfter w).sentLog = t.sentLog := by
   unfold SimT.useAfter SimT.violate; split <;> (try split) <;> rfl
 @[simp] theorem SimT.violate_sentLog (t : SimT) (w : String) : (t.violate w).sentLog = t.sentLog := rfl
-@[simp] theorem SimT.pollReady_sentLog (t : SimT) : t.pollReady.1.sentLog = t.sentLog := by
-  unfold SimT.pollReady; simp only; split <;> (try split) <;> simp
+@[simp] theorem SimT.letThrough_sentLog (t : SimT) (a : Bool) : (t.letThrough a).sentLog = t.sentLog := by
+  unfold SimT.letThrough; split <;> rfl
 @[simp] theorem SimT.drain_sentLog (t : SimT) : t.drain.1.sentLog = t.sentLog := by
   unfold SimT.drain; simp only; split <;> rfl
+@[simp] theorem SimT.pollReady_sentLog (t : SimT) : t.pollReady.1.sentLog = t.sentLog := by
+  unfold SimT.pollReady; simp only; split <;> (try split) <;> simp
 @[simp] theorem SimT.pollFlush_sentLog (t : SimT) : t.pollFlush.1.sentLog = t.sentLog := by
   unfold SimT.pollFlush; simp only; split <;> (try split) <;> simp
 @[simp] theorem SimT.pollClose_sentLog (t : SimT) : t.pollClose.1.sentLog = t.sentLog := by
   unfold SimT.pollClose; simp only; split <;> (try split) <;> simp
 @[simp] theorem SimT.pollNext_sentLog (t : SimT) : t.pollNext.1.sentLog = t.sentLog := by
-  unfold SimT.pollNext; split <;> (try split) <;> (try split) <;> rfl
+  unfold SimT.pollNext; split
+  · rfl
+  · simp only; split <;> (try split) <;> simp
 theorem SimT.startSend_sentLog (t : SimT) (m : Msg) :
     (t.startSend m).1.sentLog = if (t.startSend m).2 then t.sentLog ++ [m] else t.sentLog := by
   unfold SimT.startSend; simp only; split <;> split <;> simp
@@ -1452,6 +1456,8 @@ theorem view_applyOp_env (c : Sys) (op : COp)
   | setReady b => exact view_liftT _ _ (SimT.wakeIfReady_sentLog _)
   | setFlush b => exact view_liftT _ _ (SimT.wakeIfReady_sentLog _)
   | fault k => cases k <;> rfl
+  | faultSkip n => rfl
+  | selfWake b => rfl
   | take n => exact (view_foldl_took _ _).trans rfl
   | advance n => exact view_onAdvance _ _
 
@@ -1480,6 +1486,8 @@ theorem applyOp_inv {c : Sys} (h : Inv none (view c.s)) (op : COp) : Inv none (v
   | setReady _ => rw [view_applyOp_env _ _ trivial]; exact h
   | setFlush _ => rw [view_applyOp_env _ _ trivial]; exact h
   | fault _ => rw [view_applyOp_env _ _ trivial]; exact h
+  | faultSkip _ => rw [view_applyOp_env _ _ trivial]; exact h
+  | selfWake _ => rw [view_applyOp_env _ _ trivial]; exact h
   | take _ => rw [view_applyOp_env _ _ trivial]; exact h
   | advance _ => rw [view_applyOp_env _ _ trivial]; exact h
 
